@@ -4,6 +4,7 @@ from __future__ import annotations
 import isodate
 from phantom.re import FullMatch
 from pint import Quantity, UndefinedUnitError, Unit
+from pint.errors import LogarithmicUnitCalculusError, OffsetUnitCalculusError
 from pydantic import StrictBool, StrictBytes, StrictFloat, StrictInt, StrictStr
 from typing_extensions import TypeAlias
 
@@ -131,7 +132,15 @@ class PintQuantity(ParserMixin, Quantity):
         if kwargs.get("passthrough"):
             return super().__new__(cls, *args)
 
-        ret = Quantity(*args)  # ensure that the quantity is correctly parsed
+        try:
+            ret = Quantity(*args)  # ensure that the quantity is correctly parsed
+        except (OffsetUnitCalculusError, LogarithmicUnitCalculusError):
+            # "<number> <unit>" cannot be evaluated as a product for such units
+            # (e.g. degC, dB), but that is how these quantities are serialized
+            if len(args) != 1 or not isinstance(args[0], str):
+                raise
+            mag, _, unit = args[0].strip().partition(" ")
+            ret = Quantity(Quantity(mag).m, unit)
         # return instance of the subclass:
         return cls(ret.m, ret.u, passthrough=True)
 
